@@ -8,7 +8,9 @@ package main
 //	callback           the body only calls a function-typed parameter with the key/value (the order is passed on to the caller)
 //	per-key            the body only stores into indexed locations / variables declared inside the body, accumulates with += / ++,
 //	                   grows a slice up to an index (`for len(x) <= i { x = append(x, c) }`), or skips (continue / return in a closure)
-//	min-reduce         the body is one `if` that keeps the smallest value seen in an outer variable
+//	min-reduce-lex     the body is one `if v.F1 < m.F1 || v.F1 == m.F1 && v.F2 < m.F2 { m = v }`: keeps the smallest value under a
+//	                   strict lexicographic (total) order, so the result does not depend on the iteration order; the same fold with
+//	                   any other comparison is order-sensitive
 //	order-sensitive    anything else (append without sort, panic, print, plain assignment to an outer variable, break, return)
 //
 // Map-typed expressions are recognised syntactically: struct fields, parameters, results of make/composite literals and range
@@ -19,7 +21,6 @@ import (
 	"go/ast"
 	"go/token"
 	"sort"
-	"strings"
 )
 
 type c19Pkg struct {
@@ -264,21 +265,52 @@ func (b *c19Body) perKey(list []ast.Stmt) bool {
 	return true
 }
 
-func c19IsMinReduce(list []ast.Stmt, val string) bool {
+// c19IsMinReduce recognises `if <cond> { target = val }` as the only statement of the body. It returns
+//   "min-reduce-lex"  when <cond> is exactly the strict lexicographic order on two fields of the value:
+//                     val.F1 < target.F1 || val.F1 == target.F1 && val.F2 < target.F2        (a total order: the fold's result
+//                     does not depend on the iteration order as long as no two entries are equal in (F1, F2))
+//   "order-sensitive" when the shape is a keep-one-entry fold with any other comparison (the result may depend on the order)
+//   ""                when the body is not such a fold.
+func c19IsMinReduce(list []ast.Stmt, val string) string {
 	if len(list) != 1 || val == "" {
-		return false
+		return ""
 	}
 	ifs, ok := list[0].(*ast.IfStmt)
 	if !ok || ifs.Else != nil || ifs.Init != nil || len(ifs.Body.List) != 1 {
-		return false
+		return ""
 	}
 	as, ok := ifs.Body.List[0].(*ast.AssignStmt)
 	if !ok || as.Tok != token.ASSIGN || len(as.Lhs) != 1 || len(as.Rhs) != 1 || src(as.Rhs[0]) != val {
-		return false
+		return ""
 	}
 	target := src(as.Lhs[0])
-	cond := src(ifs.Cond)
-	return strings.Contains(cond, val+".") && strings.Contains(cond, target+".") && strings.Contains(cond, "<") && !strings.Contains(cond, ">")
+	// field comparison `val.F op target.F`
+	cmp := func(e ast.Expr, op token.Token) string {
+		b, ok := e.(*ast.BinaryExpr)
+		if !ok || b.Op != op {
+			return ""
+		}
+		x, ok1 := b.X.(*ast.SelectorExpr)
+		y, ok2 := b.Y.(*ast.SelectorExpr)
+		if !ok1 || !ok2 || src(x.X) != val || src(y.X) != target || x.Sel.Name != y.Sel.Name {
+			return ""
+		}
+		return x.Sel.Name
+	}
+	or, ok := ifs.Cond.(*ast.BinaryExpr)
+	if !ok || or.Op != token.LOR {
+		return "order-sensitive"
+	}
+	f1 := cmp(or.X, token.LSS)
+	and, ok := or.Y.(*ast.BinaryExpr)
+	if f1 == "" || !ok || and.Op != token.LAND {
+		return "order-sensitive"
+	}
+	f1eq, f2 := cmp(and.X, token.EQL), cmp(and.Y, token.LSS)
+	if f1eq != f1 || f2 == "" || f2 == f1 {
+		return "order-sensitive"
+	}
+	return "min-reduce-lex"
 }
 
 func c19Classify(body *ast.BlockStmt, key, val string, closure bool, funcParams map[string]bool, rest []ast.Stmt, encl string) string {
@@ -308,8 +340,8 @@ func c19Classify(body *ast.BlockStmt, key, val string, closure bool, funcParams 
 			}
 		}
 	}
-	if c19IsMinReduce(list, val) {
-		return "min-reduce"
+	if cl := c19IsMinReduce(list, val); cl != "" {
+		return cl
 	}
 	b := &c19Body{inner: map[string]bool{}, closure: closure, params: funcParams}
 	if b.perKey(list) {
